@@ -225,6 +225,18 @@ func c08(args []string) int {
 			jobList = append(jobList, c08Job{Scn: sc.ID(), Crashes: []crashPoint{p}})
 			single++
 		}
+		// a node that has been restarted ONCE early in its life (a clean stop right after its first commit) and
+		// crashes later: what the start-up code sets differently from a process that ran InitChain itself (the
+		// witness flag, option copies, queues) is then in force when the second crash hits. (Added after a
+		// seeded change - a witness's redeem transition skipped when its job is already in the node-local job
+		// store - escaped the single crashes: a process that ran InitChain itself never acts as a witness.)
+		warm := crashPoint{Block: 0, Pos: 3 + h.txCount(0)}
+		for _, p := range pts {
+			if p.Block >= 1 && (f.Tier != "thorough" || p.Block > 2) {
+				jobList = append(jobList, c08Job{Scn: sc.ID(), Crashes: []crashPoint{warm, p}})
+				pairs++
+			}
+		}
 		if f.Tier == "thorough" {
 			// repeated crashes: every ordered pair (second one at the same or a later boundary, which for the
 			// same block means "crash again while replaying it")
@@ -300,7 +312,7 @@ func c08(args []string) int {
 	rep.Set("harness_error_samples", errSamples)
 	rep.Set("not_run_due_to_deadline", skipped)
 	rep.Set("exhaustive", skipped == 0 && harnessErr == 0)
-	rep.Set("bounds", map[string]interface{}{"crashes_per_execution": map[string]int{"quick": 1, "thorough": 2}[f.Tier], "trailing_empty_blocks": c08Extra})
+	rep.Set("bounds", map[string]interface{}{"crashes_per_execution": map[string]string{"quick": "1, and 2 where the first is a stop right after the first commit", "thorough": "2 (all pairs at most two blocks apart, plus every pair whose first is a stop right after the first commit)"}[f.Tier], "trailing_empty_blocks": c08Extra})
 	rep.Assume("a process death loses no page already written by the process (the crash image is a byte copy of the open data directory); torn writes inside one goleveldb batch are excluded (LevelDB's own guarantee)")
 	rep.Assume("Tendermint's block store and tx index survive the crash and the missing blocks are re-sent unchanged")
 	if harnessErr > 0 {
